@@ -31,6 +31,7 @@ def run(ctx, rep):
     map_delegation(F, rep)
     from props import _hashkeys
     _hashkeys.run(F, rep)
+    _hashkeys.hash_eq_agree(F, rep)
     fresh_results(F, rep)
     index_dispatch(F, rep)
     values_not_views(F, rep)
